@@ -278,10 +278,14 @@ def _c08_mode(R, rec, a, b, ts, te, s1, s2, m, ri, mt):
 def chk_c15(rec, be):
     R = Runner(rec, be)
     a, b, ts, te = rec["a"], rec["b"], rec["ts"], rec["te"]
-    for sg in (1.0, 2.0 ** -10):
+    for sg in (1.0, 2.0 ** -10, 2.0 ** -40):
         m, ri, mt = _kw(rec, sg)
+        if sg == 2.0 ** -40 and m != 0:
+            continue            # the tiny unit only serves the "MRTS omitted = MRTS 0" clause (absolute defaults)
         s1, s2 = train(a, ts, te, sg), train(b, ts, te, sg)
         ms = sorted(set(float(fr([q, 4])) * sg for q in rec.get("_mrtsq", (0, 2, 10))))
+        if sg == 2.0 ** -40:
+            ms = [0.0]
         vals = {}
         for mm in ms:
             if mm < m:
@@ -618,4 +622,45 @@ def chk_twin_sync(rec, be):
                 if i < 0 and j < 0:
                     continue
                 _twin(R, "get_tau(i=%d,j=%d) s=%g" % (i, j, sg), PB.get_tau, gt, (A, B, i, j, tm, m * sg))
+    return R.result()
+
+
+@checker("twin_api")
+def chk_twin_api(rec, be):
+    """every public bivariate function returns the same under the pure-Python fallback and with the
+    (transliterated) compiled kernels importable"""
+    R = Runner(rec, "py=pyx,api")
+    a, b, ts, te = rec["a"], rec["b"], rec["ts"], rec["te"]
+    m, ri, mt = _kw(rec)
+    s1, s2 = train(a, ts, te), train(b, ts, te)
+    fns = list(PROFILES.items()) + list(SCALARS.items()) + list(ORDER_SCALARS.items()) + [
+        ("spike_train_order", lambda u, v, m_, ri_, mt_: pyspike.spike_train_order(u, v, max_tau=mt_, MRTS=m_)),
+        ("spike_directionality_values", lambda u, v, m_, ri_, mt_: pyspike.spike_directionality_values(u, v, max_tau=mt_, MRTS=m_)),
+        ("filter_by_spike_sync", lambda u, v, m_, ri_, mt_: pyspike.filter_by_spike_sync([u, v], 0.0, max_tau=mt_, MRTS=m_))]
+    if len(a) > 0:
+        fns.append(("spike_directionality", lambda u, v, m_, ri_, mt_: pyspike.spike_directionality(u, v, max_tau=mt_, MRTS=m_)))
+    res = {}
+    for cfg in ("py", "shim"):
+        impl.set_backend(cfg)
+        for name, f in fns:
+            res[(cfg, name)] = R.run(name, f, s1, s2, m, ri, mt if mt > 0 else None)
+    impl.set_backend("py")
+    for name, f in fns:
+        p, q = res[("py", name)], res[("shim", name)]
+        if p is None or q is None:
+            continue
+        if name in PROFILES:
+            ok = same_profile(ptuple(p), ptuple(q))
+            sp, sq = pstr(ptuple(p)), pstr(ptuple(q))
+        elif name == "spike_directionality_values":
+            ok = len(p) == len(q) and all(same_arrays(u, v) for u, v in zip(p, q))
+            sp, sq = [fl(u) for u in p], [fl(u) for u in q]
+        elif name == "filter_by_spike_sync":
+            ok = all(list(u.spikes) == list(v.spikes) for u, v in zip(p, q))
+            sp, sq = [fl(u.spikes) for u in p], [fl(u.spikes) for u in q]
+        else:
+            ok = close(p, q)
+            sp, sq = repr(p), repr(q)
+        if not ok:
+            R.bad(name, "pure-Python fallback gives %s, compiled configuration gives %s" % (sp, sq))
     return R.result()
